@@ -276,3 +276,27 @@ V("C13", "tonumpy-in-constraint", "fire", "C13.R2", "gathered parameters pass th
   ("src/pyhf/constraints.py", "        normal_means = tensorlib.gather(flat_pars, self.access_field)\n", "        normal_means = tensorlib.astensor(tensorlib.to_numpy(tensorlib.gather(flat_pars, self.access_field)))\n"))
 V("C13", "torch-value-item", "silent", "", "value converted with .item() instead of numpy()[0]",
   ("src/pyhf/optimize/opt_pytorch.py", "return constr_nll.detach().numpy()[0], grad", "return constr_nll.detach()[0].item(), grad"))
+
+# ------------------------------------------------------------------ C04
+NB, JB, PB, TB = "src/pyhf/tensor/numpy_backend.py", "src/pyhf/tensor/jax_backend.py", "src/pyhf/tensor/pytorch_backend.py", "src/pyhf/tensor/tensorflow_backend.py"
+V("C04", "numpy-dist-roles-swapped", "fire", "C04.R1", "numpy _BasicPoisson.log_prob swaps value and rate",
+  (NB, "return tensorlib.poisson_logpdf(value, self.rate)", "return tensorlib.poisson_logpdf(self.rate, value)"))
+V("C04", "jax-gammaln-n", "fire", "C04.R3", "jax poisson_logpdf uses gammaln(n)",
+  (JB, "        return xlogy(n, lam) - lam - gammaln(n + 1.0)\n\n    def poisson(self, n, lam):", "        return xlogy(n, lam) - lam - gammaln(n)\n\n    def poisson(self, n, lam):"))
+V("C04", "numpy-poisson-lam-dropped", "fire", "C04.R2", "numpy poisson drops -lam (logpdf unchanged)",
+  (NB, "return np.exp(xlogy(_n, _lam) - _lam - gammaln(_n + 1.0))", "return np.exp(xlogy(_n, _lam) - gammaln(_n + 1.0))"))
+V("C04", "numpy-normal-root2", "fire", "C04.R3", "numpy normal_logpdf loses the sqrt(2)",
+  (NB, "summand = -np.square(np.divide((x - mu), (root2 * sigma)))", "summand = -np.square(np.divide((x - mu), (sigma)))"))
+V("C04", "torch-cdf-erf", "fire", "C04.R4", "torch normal_cdf as 0.5*(1+erf)",
+  (PB, "return 0.5 * torch.erfc(-((x - mu) * sigma.reciprocal() / math.sqrt(2)))", "return 0.5 * (1 + torch.erf((x - mu) * sigma.reciprocal() / math.sqrt(2)))"))
+V("C04", "tf-dist-roles", "fire", "C04.R1", "tf normal_dist swaps mu and sigma",
+  (TB, "        return tfp.distributions.Normal(mu, sigma)\n", "        return tfp.distributions.Normal(sigma, mu)\n"))
+V("C04", "torch-param-renamed", "fire", "C04.R5", "torch backend renames a parameter",
+  (PB, "    def poisson_logpdf(self, n, lam):", "    def poisson_logpdf(self, n, rate):"),
+  (PB, "return torch.distributions.Poisson(lam, validate_args=False).log_prob(n)\n\n    def poisson(self, n, lam):", "return torch.distributions.Poisson(rate, validate_args=False).log_prob(n)\n\n    def poisson(self, n, lam):"))
+V("C04", "jax-dtype-dropped", "fire", "C04.R6", "jax astensor without dtype",
+  (JB, "return jnp.asarray(tensor_in, dtype=dtype)", "return jnp.asarray(tensor_in).astype(dtype)"))
+V("C04", "numpy-sample-shape", "fire", "C04.R1", "numpy Poisson sample ignores the rate shape",
+  (NB, "return poisson(self.rate).rvs(size=sample_shape + self.rate.shape)", "return poisson(self.rate).rvs(size=sample_shape)"))
+V("C04", "numpy-normal-expanded", "silent", "", "numpy normal_logpdf algebraically rewritten",
+  (NB, "summand = -np.square(np.divide((x - mu), (root2 * sigma)))", "summand = -np.square(x - mu) / (2 * np.square(sigma))"))
